@@ -46,16 +46,59 @@ func FirstWordType(sql string) int {
 		}
 		return string(b), j
 	}
+	// comments in front of the statement are not the statement: /* ... */,
+	// -- ... and # ... to the end of the line; the content of a version comment
+	// /*!NNNNN ... */ is executed, so the keyword is looked for inside it
+	start := 0
+	for {
+		for start < len(sql) && isSpace(sql[start]) {
+			start++
+		}
+		rest := sql[start:]
+		switch {
+		case len(rest) >= 3 && rest[:3] == "/*!":
+			start += 3
+			for start < len(sql) && sql[start] >= '0' && sql[start] <= '9' {
+				start++
+			}
+			continue
+		case len(rest) >= 2 && rest[:2] == "/*":
+			k := 2
+			for k+1 < len(rest) && !(rest[k] == '*' && rest[k+1] == '/') {
+				k++
+			}
+			if k+1 >= len(rest) {
+				return StUnknown
+			}
+			start += k + 2
+			continue
+		case len(rest) >= 1 && rest[0] == '#', len(rest) >= 3 && rest[:2] == "--" && isSpace(rest[2]):
+			k := 0
+			for k < len(rest) && rest[k] != '\n' {
+				k++
+			}
+			if k >= len(rest) {
+				return StUnknown
+			}
+			start += k + 1
+			continue
+		}
+		break
+	}
 	// the keyword ends at the first white-space character (statements are
 	// logged as the client wrote them: a tab or a line break may follow it)
-	w, end := "", 0
-	for end < len(sql) && !isSpace(sql[end]) {
+	// or where a version comment closes
+	end := start
+	for end < len(sql) && !isSpace(sql[end]) && !(sql[end] == '*' && end+1 < len(sql) && sql[end+1] == '/') {
 		end++
 	}
-	w, _ = lowerWord(0)
-	if len(sql) > 0 && isSpace(sql[0]) {
-		w = "" // a statement starting with white space has no keyword in first place
+	b := []byte(sql[start:end])
+	for k, c := range b {
+		if c >= 'A' && c <= 'Z' {
+			b[k] = c + 32
+		}
 	}
+	w := string(b)
 	t, ok := keywordTypes[w]
 	if !ok {
 		return StUnknown
